@@ -23,12 +23,12 @@ TRUSTED = ["an optimizer leaves a zero parameter at zero when all of its gradien
 
 def configs(tier):
     out = []
-    sizes = [(1, None, None), (2, 3, 1), (3, None, 2), (2, 1, None)] if tier == "quick" else \
-        [(nv, nh, na) for nv in (1, 2, 3, 4) for nh in (None, 1, 3) for na in (None, 1, 2)]
+    sizes = [(1, None, None), (2, 3, 1), (3, None, 2), (2, 1, None), (2, 2, 0), (2, 0, 1)] if tier == "quick" else \
+        [(nv, nh, na) for nv in (1, 2, 3, 4) for nh in (None, 0, 1, 3) for na in (None, 0, 1, 2)]
     for kind in ("positive", "complex", "mixed"):
         for (nv, nh, na) in sizes:
-            if kind != "mixed" and na is not None:
-                continue
+            if kind != "mixed" and (na is not None or nh == 0):
+                continue            # explicit zero sizes are only meaningful for the purification RBM (pure-state limit)
             out.append({"part": "sizes", "kind": kind, "nv": nv, "nh": nh, "na": na})
         out.append({"part": "module", "kind": kind})
         out.append({"part": "reinit", "kind": kind})
@@ -52,7 +52,8 @@ def _cls(kind):
 
 
 def _ptrs(m):
-    return {n: p.data_ptr() for n, p in m.named_parameters()}
+    # empty tensors own no storage (data_ptr() == 0 for all of them) and cannot alias anything
+    return {n: p.data_ptr() for n, p in m.named_parameters() if p.numel() > 0}
 
 
 def _sizes(ctx, cfg):
@@ -68,7 +69,7 @@ def _sizes(ctx, cfg):
         return t
     with mock.patch.object(torch, "randn", rec):
         s = _cls(kind)(nv, nh, na, gpu=False) if kind == "mixed" else _cls(kind)(nv, nh, gpu=False)
-    enh = nh if nh else nv
+    enh = (nh if nh is not None else nv) if kind == "mixed" else (nh if nh else nv)
     ena = na if na is not None else nv
     nets = s.networks
     ctx.holds("sizes/networks[%s]" % kind, nets == (["rbm_am"] if kind == "positive" else ["rbm_am", "rbm_ph"]))
